@@ -13,6 +13,8 @@ Inductive bfun :=
 | BMinList | BMinNum | BMod | BMul | BNeBool | BNeList | BNeMap | BNeNum | BNeStr | BNeTime | BPrint | BRound | BString
 | BStrtotime | BSubNum1 | BSubNum | BSubTime | BUnion.
 
+Scheme Equality for bfun.
+
 Definition shape (t : ty) : string :=
   match t with
   | TNum => "n" | TStr => "s" | TBool => "b" | TTime => "t" | TVar _ => "v"
